@@ -49,7 +49,9 @@ impl OutputManager {
         }
 
         // Test write permissions by creating a temporary file
-        let test_file = self.output_dir.join(".write_test");
+        // The probe carries one of the tool's own (generated_*) names, so that it can never be a
+        // file the user keeps in the output directory
+        let test_file = self.output_dir.join("generated_write_test.tmp");
         fs::write(&test_file, "test").map_err(|e| {
             OutputError::PermissionDenied(format!(
                 "Cannot write to output directory {}: {}",
